@@ -217,6 +217,8 @@ async def drive(b: Build, shard, res: Result):
             for mi_idx, m in enumerate(methods):
                 if part and mi_idx % part[1] != part[0]:
                     continue
+                if shard.get("only_method") and m["proto"] != shard["only_method"]:
+                    continue
                 res.counters["methods"] += 1
                 scenarios = []
                 lens = range(0, shard["k"] + 1)
@@ -246,6 +248,8 @@ async def drive(b: Build, shard, res: Result):
             stub = stub_cls(channel)
             for mi_idx, m in enumerate(methods):
                 if part and mi_idx % part[1] != part[0]:
+                    continue
+                if shard.get("only_method") and m["proto"] != shard["only_method"]:
                     continue
                 cid = next(call_ids)
                 PLAN.call_id, PLAN.log = cid, []
@@ -440,5 +444,5 @@ def run_shard(shard) -> Result:
 
 
 def replay(w):
-    r = run_shard({"item": w["item"], "seed": 0, "k": 3})
-    return [v for v in r.violations if v["witness"].get("method") == w.get("method")]
+    r = run_shard({"item": w["item"], "seed": 0, "k": 3, "only_method": w.get("method")})
+    return [v for v in r.violations if v["witness"].get("service", w.get("service")) == w.get("service")]
